@@ -249,7 +249,7 @@ impl Compound {
             *lhs *= Rational::new(10u32, 1u32).pow(state.prefix * state.power);
 
             if let Some(conversion) = name.conversion() {
-                apply_conversion(state.power, lhs, conversion, true)?;
+                apply_interval_conversion(state.power, lhs, conversion);
             }
         }
 
@@ -257,7 +257,7 @@ impl Compound {
             *rhs *= Rational::new(10u32, 1u32).pow(state.prefix * state.power);
 
             if let Some(conversion) = name.conversion() {
-                apply_conversion(state.power, rhs, conversion, true)?;
+                apply_interval_conversion(state.power, rhs, conversion);
             }
         }
 
@@ -319,7 +319,7 @@ impl Compound {
                     // original factor modifier, which we apply to mod_power to
                     // get the original power back. Then we multiply by `-1`
                     // because we want to shed the multiples here.
-                    apply_conversion(-mod_power, out, conversion, true)?;
+                    apply_interval_conversion(-mod_power, out, conversion);
                 }
             }
 
@@ -518,6 +518,28 @@ impl fmt::Debug for Compound {
 impl fmt::Display for Compound {
     fn fmt(&self, f: &mut fmt::Formatter<'_>) -> fmt::Result {
         self.display(false).fmt(f)
+    }
+}
+
+/// Apply the conversion of a unit raised to `pow` to an operand of a product
+/// or a quotient. There a degree on a scale with a zero point offset is an
+/// interval: only its size is converted and the zero point is never added.
+fn apply_interval_conversion(pow: i32, ratio: &mut Rational, conversion: Conversion) {
+    let size = match conversion {
+        Conversion::Factor(fraction) => Rational::new(fraction.numer, fraction.denom),
+        Conversion::Offset(..) => return,
+        Conversion::Methods(methods) => {
+            // The size of a degree is the distance between zero and one.
+            let mut zero = Rational::new(0, 1);
+            let mut one = Rational::new(1, 1);
+            (methods.to)(&mut zero);
+            (methods.to)(&mut one);
+            one - zero
+        }
+    };
+
+    if pow != 0 {
+        *ratio *= size.pow(pow);
     }
 }
 
